@@ -363,6 +363,32 @@ class SkelTr:
             out.append(f"{ind}else do")
             out += self.blk(s.orelse, k, ind + "  ", ret, set(locs), mname)
             return out
+        if isinstance(s, ast.For) and isinstance(s.iter, ast.Call) and isinstance(s.iter.func, ast.Attribute) \
+                and s.iter.func.attr in ("items", "values") and \
+                self.self_attr(s.iter.func.value) in self.spec.get("iterables", {}) and not s.orelse:
+            # `for key, item in self._coll.items():` - the elements in order, index `i`; locals assigned in the body
+            # are carried from one iteration to the next
+            coll, cnt = self.spec["iterables"][self.self_attr(s.iter.func.value)]
+            self.nloop += 1
+            h = f"{mname}_for{self.nloop}"
+            vs = sorted(self.assigned(s) & locs)
+            args = "".join(" " + v for v in vs)
+            saved = dict(self.elem_locals)
+            names = [e.id for e in (s.target.elts if isinstance(s.target, ast.Tuple) else [s.target]) if isinstance(e, ast.Name)]
+            for nme in names:
+                self.elem_locals[nme] = (coll, "i")
+            body = self.blk(s.body, f"{h} cfg k n (i + 1){args}", "    ", ret, set(locs), mname)
+            self.elem_locals = saved
+            kty = " → ".join(["Bool"] * len(vs) + [f"M {ret}"])
+            pat0 = "".join(", " + v for v in vs)
+            self.helpers.append(
+                f"/-- the loop of `{mname}` over `{coll}`: `n` elements left, the next one has index `i`"
+                + (f"; carried: {', '.join(vs)}" if vs else "") + " -/\n"
+                f"def {h} (cfg : Cfg) (k : {kty}) : Nat → Nat → {kty}\n  | 0, _{pat0} => k{args}\n"
+                f"  | n + 1, i{pat0} => do\n" + "\n".join(body))
+            kfun = f"(fun{args} => {k})" if vs else f"({k})"
+            out.append(f"{ind}{h} cfg {kfun} cfg.{cnt} 0{args}")
+            return out
         if isinstance(s, ast.For):
             it = s.iter
             if not (isinstance(it, ast.Call) and isinstance(it.func, ast.Name) and it.func.id == "range"
@@ -489,7 +515,8 @@ class SkelTr:
         cfg = "structure Cfg where\n" + "\n".join(
             [f"  {f} : Bool" for f in self.spec.get("flags", {}).values()] +
             [f"  {f} : Nat" for f in self.spec.get("nat_fields", {}).values()] +
-            [f"  {f} : Nat" for f in self.spec.get("len_fields", {}).values()]) + "\n"
+            [f"  {f} : Nat" for f in self.spec.get("len_fields", {}).values()] +
+            [f"  {c} : Nat" for _, c in self.spec.get("iterables", {}).values()]) + "\n"
         return cfg + "\n" + "\n\n".join(parts[n] for n in order) + "\n"
 
 
@@ -516,6 +543,11 @@ def hooks_spec(rel: str, cls: str, comp: str) -> dict:
                        ("thread/thread_control.py", "ThreadEventMixin")],
                 collaborators={comp, "_thread_status"})
 
+
+MONITOR_SPEC = dict(
+    rel="thread/thread_control.py", cls="ThreadStatusesMonitor", bases=[], skip={"_logger"},
+    iterables={"_statuses": ("statuses", "nStatuses")},
+)
 
 TRAINING_TICK_SPEC = dict(
     rel="thread/threads/training.py", cls="TrainingThread",
